@@ -280,7 +280,7 @@ class _FakeTransport:
 
 
 class _FakeConn:
-    """The two things SSHLocalForwarder asks of its connection"""
+    """What SSHLocalForwarder / SSHSOCKSForwarder ask of their connection"""
 
     def __init__(self):
         self.coros: List[Any] = []
@@ -288,6 +288,14 @@ class _FakeConn:
     def create_task(self, coro, *_args):
         self.coros.append(coro)
         return None
+
+    # (bookkeeping of clients still negotiating, since the repair that
+    # closes them with the connection)
+    def add_pending_forwarder(self, forwarder) -> None:
+        pass
+
+    def remove_pending_forwarder(self, forwarder) -> None:
+        pass
 
 
 def _drive(coro) -> bool:
@@ -1514,7 +1522,26 @@ class RigServer(asyncssh.SSHServer):
         return True
 
     def server_requested(self, listen_host, listen_port):
-        return self.rig.accept_handler or True
+        rig = self.rig
+
+        if rig.listen_gate is not None:
+            # the application takes its time to decide (documented: may be
+            # a coroutine); the connection can end meanwhile
+            gate = rig.listen_gate
+            rig.requests.append(('listen', listen_host, listen_port))
+            rig.notify()
+
+            async def slow():
+                try:
+                    await gate.wait()
+                    return True
+                finally:
+                    rig.listen_done += 1
+                    rig.notify()
+
+            return slow()
+
+        return rig.accept_handler or True
 
     def unix_server_requested(self, listen_path):
         return True
@@ -1588,6 +1615,8 @@ class Rig:
         self.requests: List[Any] = []
         self.open_gate: Optional[asyncio.Event] = None
         self.open_done = 0
+        self.listen_gate: Optional[asyncio.Event] = None
+        self.listen_done = 0
         self.acceptor: Any = None
         self.conn: Any = None
         self.probe_chan: Any = None
@@ -2654,6 +2683,34 @@ async def release_scenario(rig: Rig, case, labels) -> bool:
                          'release:open-not-requested',
                          'direct-tcpip open did not reach the server')
 
+    half = None
+
+    if case.get('socks_half') and any(k == 'socks' for k, *_ in made):
+        # a SOCKS client that has only got as far as the method selection:
+        # no channel exists for it yet, it is still a relayed socket of
+        # this connection
+        labels.add('socks-half-negotiated')
+        _, _, awhere, _ = [m for m in made if m[0] == 'socks'][0]
+        half = await rig.connect_a(awhere, 'H')
+        half.write(b'\x05\x01\x00')
+        await rig.expect(lambda: len(half.received) >= 2 or half.eof,
+                         'socks-reply', 'release:socks-no-method-reply',
+                         'no method selection from the SOCKS listener')
+
+    ltask = None
+
+    if case.get('listen_inflight'):
+        # a remote listener is being set up when the connection ends: the
+        # server application has not answered server_requested() yet
+        labels.add('listen-in-flight')
+        rig.listen_gate = asyncio.Event()
+        nreq = len(rig.requests)
+        ltask = rig.loop.create_task(_aw(rig.conn.forward_remote_port(
+            '127.0.0.1', 0, '127.0.0.1', btcp)))
+        await rig.expect(lambda: len(rig.requests) > nreq, 'relay',
+                         'release:listen-not-requested',
+                         'tcpip-forward request did not reach the server')
+
     if end == 'close':
         rig.conn.close()
     elif end == 'abort':
@@ -2692,6 +2749,34 @@ async def release_scenario(rig: Rig, case, labels) -> bool:
                          'channel whose SSH connection was already gone '
                          '(%s) stays open' % end, poll=True)
         rig.open_gate = None
+
+    if ltask is not None:
+        await rig.expect(ltask.done, 'release',
+                         'release:listen-hangs:' + end,
+                         'forward_remote_port() still pending after the '
+                         'connection ended (%s)' % end, poll=True)
+
+        if ltask.done() and not ltask.cancelled() and \
+                ltask.exception() is None:
+            raise Violation('release', 'forward_remote_port() succeeded '
+                            'although the connection ended before the server '
+                            'application had agreed',
+                            'release:listen-succeeded:' + end)
+
+        # now the application says yes: whatever is bound from here on
+        # belongs to a connection that no longer exists
+        rig.listen_gate.set()
+        await rig.expect(lambda: rig.listen_done > 0, 'release',
+                         'release:listen-in-flight:never-finished',
+                         'the server-side listen request never finished',
+                         poll=True)
+        rig.listen_gate = None
+
+    if half is not None:
+        await rig.expect(lambda: half.eof, 'close-both',
+                         'release:%s:half-negotiated-socks-left-open' % end,
+                         'a SOCKS client still negotiating when the SSH '
+                         'connection ended (%s) is not disconnected' % end)
 
     for kind, a, b in pairs:
         for who in (a, b):
@@ -2760,6 +2845,8 @@ def release_strategy(tier: str):
         'explicit': pick([False, False, True]),
         'inflight': pick([0, 0, 1, 2]),
         'open_inflight': pick([False, False, True]),
+        'socks_half': pick([False, True]),
+        'listen_inflight': pick([False, False, True]),
         'end': pick(['close', 'abort', 'sabort', 'sclose',
                                 'cut']),
     })
@@ -3077,6 +3164,7 @@ FAMILIES = [
            required={'all': ['rel-' + k for k in REL_KINDS] +
                      ['active', 'explicit-close', 'survives-listener-close',
                       'loss-in-flight', 'open-in-flight',
+                      'listen-in-flight', 'socks-half-negotiated',
                       'end-close', 'end-abort', 'end-sabort', 'end-cut']},
            case_timeout=120),
     Family('interop', run_interop, enumerate=interop_cases,
